@@ -136,7 +136,7 @@ C14_1D(tk) ==
     scale_std_dev |-> IF SNone(tk) THEN NoneV
                       ELSE [k |-> "sqrt", nd |-> 0, v |-> SScaleVarR(tk), scale |-> One],
     scale_std_err |-> IF SNone(tk) THEN NoneV
-                      ELSE [k |-> "sqrt", nd |-> 0, v |-> Div(SScaleVarR(tk), R(SScaleN(tk))),
+                      ELSE [k |-> "sqrt", nd |-> 0, v |-> Div(SScaleVarR(tk), RSt(SScaleN(tk), WS)),
                             scale |-> One] ]
 
 C15_2D(tk) ==
@@ -149,14 +149,20 @@ C15_1D(tk) ==
     sums      |-> Num1(SYStatV("sum", tk, RE(tk))) ]
 C16_2D(tk) ==
   [ column_index |-> Num2(ColIndexM(tk, RE(tk), CE(tk))) ]
+\* (the proportions and standard errors the estimates are built from are public too)
 C17_2D(tk) ==
-  [ population_counts     |-> Num2(PopCountM(tk, RE(tk), CE(tk))),
-    population_counts_moe |-> SqrtS2(PopSE2M(tk, RE(tk), CE(tk)), PopScale),
-    population_fraction   |-> Num0(Fraction) ]
+  [ population_counts      |-> Num2(PopCountM(tk, RE(tk), CE(tk))),
+    population_counts_moe  |-> SqrtS2(PopSE2M(tk, RE(tk), CE(tk)), PopScale),
+    population_proportions |-> Num2(Mat(Len(RE(tk)), Len(CE(tk)),
+                                        LAMBDA i, j : PopProp(tk, RE(tk)[i], CE(tk)[j]))),
+    population_std_err     |-> Sqrt2(PopSE2M(tk, RE(tk), CE(tk))),
+    population_fraction    |-> Num0(Fraction) ]
 C17_1D(tk) ==
-  [ population_counts     |-> Num1(SPopCountV(tk, RE(tk))),
-    population_counts_moe |-> SqrtS1(SPopSE2V(tk, RE(tk)), PopScale),
-    population_fraction   |-> Num0(Fraction) ]
+  [ population_counts      |-> Num1(SPopCountV(tk, RE(tk))),
+    population_counts_moe  |-> SqrtS1(SPopSE2V(tk, RE(tk)), PopScale),
+    population_proportions |-> Num1(Vec(Len(RE(tk)), LAMBDA i : SPopProp(tk, RE(tk)[i]))),
+    population_proportion_stderrs |-> Sqrt1(SPopSE2V(tk, RE(tk))),
+    population_fraction    |-> Num0(Fraction) ]
 
 \* display orders in both renderings, labels (as references) and extents
 Bogus(d, dc, ord) == [k |-> "bogus", nd |-> 0, v |-> BogusIds(d, dc, ord)]
@@ -255,7 +261,7 @@ CubeLevel ==
       W(i) == IF HasY /\ ValidCounts THEN (IF Weighted THEN CellWV(i) ELSE CellNV(i))
               ELSE (IF Weighted THEN CellW(CountAxes, i) ELSE CellN(CountAxes, i))
       U(i) == IF HasY /\ ValidCounts THEN CellNV(i) ELSE CellN(CountAxes, i)
-  IN  [ counts            |-> Num1([t \in 1..Len(cntIdx) |-> R(W(cntIdx[t]))]),
+  IN  [ counts            |-> Num1([t \in 1..Len(cntIdx) |-> RSt(W(cntIdx[t]), WS)]),
         unweighted_counts |-> Num1([t \in 1..Len(cntIdx) |-> R(U(cntIdx[t]))]) ]
 CubeLevelY ==
   LET yIdx == ValidOnly(Axes, LogicalIdxAll) IN
